@@ -180,6 +180,7 @@ def lookup_tables(lang):
     names = sorted(ents) + ["c_default"]
     eid = {n: i + 1 for i, n in enumerate(names)}
     pairs = []
+    combos = []
     sg = sgroups()
     for g in sg:
         for sp in SPOINTERS:
@@ -193,6 +194,9 @@ def lookup_tables(lang):
                                 a = statements.lookup_fc_stmts(cpath)
                                 b = statements.lookup_fc_stmts(fpath)
                                 pairs.append((eid[a.name], eid[b.name]))
+                                if a.name != b.name:
+                                    combos.append({"lang": lang, "sgroup": g, "spointer": sp, "intent": it, "suffix": sx,
+                                                   "deref": dr, "cdesc": cd, "specialize": spz, "c_entry": a.name, "f_entry": b.name})
     # results: wrapc: subroutine -> ["c"] or ["c","shadow","dtor"]; function -> [.., "ctor"|"result", suffix]
     #          wrapf: always ["c", sgroup, spointer, "result", suffix]
     sigs, sigid = {}, {}
@@ -230,7 +234,7 @@ def lookup_tables(lang):
         if "result" in n.split("_"):
             e = ents[n]
             rrows.append((eid[n], ret_class(e, typemap), 1 if e.return_cptr else 0, 1 if e.f_result_decl else 0))
-    return names, pairs, rpairs, ents, rrows
+    return names, pairs, rpairs, ents, rrows, combos
 
 
 def decl_rows(ents):
@@ -506,8 +510,9 @@ def collect():
     data = {"lookup": {}}
     decl_all, rdecl_all = {}, {}
     for lang in ("c", "c++"):
-        names, pairs, rpairs, ents, rrows = lookup_tables(lang)
+        names, pairs, rpairs, ents, rrows, combos = lookup_tables(lang)
         data["lookup"][lang] = (names, pairs, rpairs, rrows)
+        data.setdefault("disagreements", []).extend(combos)
         rows, rrows = decl_rows(ents)
         for n, cs, fs in rows:
             decl_all[(n, repr(cs), repr(fs))] = (n, cs, fs)
@@ -546,7 +551,8 @@ def regenerate():
             "result_pairs": len(ca[2]) + len(cb[2]), "entries_c": len(ca[0]), "entries_cxx": len(cb[0]),
             "typemap_rows": len(data["typemap"]), "struct_pairs": [s[0] for s in data["structs"]],
             "helper_interfaces": len(data["hif"]), "defines_c": len(data["definesC"]), "defines_f": len(data["definesF"]),
-            "decl_rows": len(data["decl"]), "result_decl_rows": len(data["rdecl"]), "changed": changed}
+            "decl_rows": len(data["decl"]), "result_decl_rows": len(data["rdecl"]), "changed": changed,
+            "disagreements": data.get("disagreements", [])[:200]}
 
 
 if __name__ == "__main__":
